@@ -269,7 +269,7 @@ QUERIES = ["$.*", "$[*]", "$..*", "$..[*]", "$..a", "$..[0]", "$[?@]", "$[?@.a]"
 def obligations(tier: str):
     obls = []
     docs = DOCS_QUICK + (DOCS_MORE if tier == "thorough" else [])
-    queries = QUERIES + (["$..[*,*]", "$..*..*"] if tier == "thorough" else [])
+    queries = QUERIES + (["$..[*,*]"] if tier == "thorough" else [])
     t = 300 if tier == "quick" else 1200
     for qi, q in enumerate(queries):
         for di, d in enumerate(docs):
